@@ -5,6 +5,7 @@ package main
 // fieldmaskpb's validation.
 
 import (
+	"bytes"
 	"strings"
 
 	"google.golang.org/protobuf/proto"
@@ -96,7 +97,7 @@ func compareProjection(got, want proto.Message, t *node) cmpResult {
 	if got.ProtoReflect().Descriptor() != want.ProtoReflect().Descriptor() {
 		return cmpDifferent
 	}
-	if vk.SameMessage(got, want) {
+	if bytes.Equal(wire(got), wire(want)) || vk.SameMessage(got, want) {
 		return cmpExact
 	}
 	if t == nil {
@@ -116,10 +117,24 @@ func compareProjection(got, want proto.Message, t *node) cmpResult {
 
 // populate sets every field of m to a non-default value derived from (field number, salt). Message fields are
 // filled down to depth; lists get two elements (the second one sparser), maps two entries.
-func populate(m protoreflect.Message, depth, salt int) {
+func populate(m protoreflect.Message, depth, salt int) { populateLevel(m, depth, salt, true) }
+
+// coreFields are always populated in nested copies of a large message (they are what pool paths, corrupted paths
+// and canaries reach below the top level); the rest of a nested large message is populated sparsely to keep the
+// messages small.
+var coreFields = map[protoreflect.Name]bool{
+	"default_int32": true, "default_string": true, "default_nested_message": true, "repeated_int32": true,
+	"repeated_nested_message": true, "map_int32_int32": true, "map_string_string": true, "oneof_default_int32": true,
+	"optional_int32": true, "default_nested_enum": true,
+}
+
+func populateLevel(m protoreflect.Message, depth, salt int, top bool) {
 	fds := m.Descriptor().Fields()
 	for i := 0; i < fds.Len(); i++ {
 		fd := fds.Get(i)
+		if !top && fds.Len() > 20 && !coreFields[fd.Name()] && (i+salt)%4 != 0 {
+			continue
+		}
 		if od := fd.ContainingOneof(); od != nil && !od.IsSynthetic() {
 			// one arm per oneof: pick by salt, prefer message arms at even salts
 			arms := od.Fields()
@@ -143,7 +158,7 @@ func setField(m protoreflect.Message, fd protoreflect.FieldDescriptor, depth, sa
 			if fd.MapValue().Message() != nil {
 				v := mp.NewValue()
 				if depth > 0 {
-					populate(v.Message(), depth-1, salt+j)
+					populateLevel(v.Message(), depth-1, salt+j, false)
 				}
 				mp.Set(k, v)
 			} else {
@@ -157,7 +172,7 @@ func setField(m protoreflect.Message, fd protoreflect.FieldDescriptor, depth, sa
 				e := l.NewElement()
 				if depth > 0 {
 					if j == 0 {
-						populate(e.Message(), depth-1, salt+1)
+						populateLevel(e.Message(), depth-1, salt+1, false)
 					} else {
 						sparse(e.Message(), depth-1, salt+2)
 					}
@@ -170,7 +185,7 @@ func setField(m protoreflect.Message, fd protoreflect.FieldDescriptor, depth, sa
 	case fd.Message() != nil:
 		sub := m.Mutable(fd).Message()
 		if depth > 0 {
-			populate(sub, depth-1, salt+int(fd.Number()))
+			populateLevel(sub, depth-1, salt+int(fd.Number()), false)
 		}
 	default:
 		m.Set(fd, scalarValue(fd, salt))
